@@ -1,7 +1,15 @@
 import Indi.Properties.C18
+import Indi.Properties.C18b
+import Indi.Properties.Decisions
 #print axioms Indi.Rtr.C18_forgotten
 #print axioms Indi.Rtr.C18_no_delivery_after
 #print axioms Indi.Rtr.C18_others_stay
 #print axioms Indi.Rtr.C18_others_policies
 #print axioms Indi.Rtr.C18_others_served
 #print axioms Indi.Rtr.C18_reconnect_default
+#print axioms Indi.Conn.wf_init
+#print axioms Indi.Conn.wf_step
+#print axioms Indi.Conn.C18_ending_cleans
+#print axioms Indi.Conn.C18_ended_is_final
+#print axioms Indi.Conn.serving_stays
+#print axioms Indi.Decisions.routerDeliver_agrees
